@@ -82,6 +82,22 @@ def gen_c19(repo):
     out.append('/-- `GetDefaultAggregationType`: instrument type code -> aggregation type code -/\n'
                'def defaultAggTable : List (Nat × Nat) := [' + ', '.join(f'({a}, {b})' for a, b in coded) + ']\n')
     out.append(f'-- default: {default}\ndef defaultAggFallback : Nat := {dflt}\n')
+    # default histogram boundaries (both constructors must agree; all values integral)
+    ha = X._strip_comments(X._read(repo, 'sdk/src/metrics/aggregation/histogram_aggregation.cc'))
+    lists = re.findall(r'HistogramAggregation::\w*HistogramAggregation\(const AggregationConfig \*aggregation_config\)\s*\{.*?else\s*\{\s*point_data_\.boundaries_\s*=\s*\{(.*?)\}', ha, re.S)
+    if len(lists) != 2:
+        raise X.ExtractError(f'histogram_aggregation.cc: expected two default boundary lists, found {len(lists)}')
+    parsed = [[float(x) for x in re.findall(r'-?\d+(?:\.\d+)?', l)] for l in lists]
+    if parsed[0] != parsed[1] or any(v != int(v) or v < 0 for v in parsed[0]):
+        raise X.ExtractError('default histogram boundaries of the long and double aggregations differ or are not non-negative integers')
+    out.append('/-- default explicit bucket boundaries of `{Long,Double}HistogramAggregation` -/\n'
+               f'def defaultHistogramBounds : List Nat := {X.lean_nat_list(parsed[0])}\n')
+    # AsyncMetricStorage::Record builds the per-measurement aggregation with the view's aggregation config (D63)
+    am = X._strip_comments(X._read(repo, 'sdk/include/opentelemetry/sdk/metrics/state/async_metric_storage.h'))
+    m = X._one(r'auto\s+aggr\s*=\s*DefaultAggregation::CreateAggregation\(([^;]*)\);', am, 'CreateAggregation call of AsyncMetricStorage::Record')
+    out.append('/-- `AsyncMetricStorage::Record` passes the view\'s aggregation config to `CreateAggregation` (D63) -/\n'
+               'def asyncStorageUsesConfig : Bool := ' + ('true' if re.search(r'aggregation_config', m.group(1)) else 'false') + '\n')
+
     vr = X._strip_comments(X._read(repo, 'sdk/include/opentelemetry/sdk/metrics/view/view_registry.h'))
     m = X._one(r'if\s*\(\s*!found\s*\)\s*\{\s*static\s+const\s+View\s+view\(\s*"((?:[^"\\]|\\.)*)"\s*\)', vr, 'default view of FindViews')
     out.append(f'def defaultViewName : List UInt8 := {X.lean_bytes(X._c_string_literal(m.group(1)))}\n')
